@@ -21,7 +21,7 @@ Import ListNotations.
 From Coq.Strings Require Import Byte.
 From Muduo Require Import Conc_Model Conc_Proofs.
 From Muduo Require C20_Model.
-From Muduo Require Import Gen_Consts Gen_C16 C16_Model C16_Proofs C16_MonModel C16_MonProofs C16_NamesModel C16_NamesProofs.
+From Muduo Require Import Gen_Consts Gen_C16 C16_Model C16_Proofs C16_MonModel C16_MonProofs C16_NamesModel C16_NamesProofs C16_Reopen.
 Local Open Scope Z_scope.
 
 (* ------------------------------------------------------------------ (i) AppendFile, LogFile *)
@@ -684,3 +684,20 @@ Example C16_sinks_nonvacuous :
               inr SFlush; inl SClose] in
   files_in_order (fst s) = [(1000, [1; 2]%nat)] /\ files_in_order (snd s) = [(1000, [7; 8]%nat)].
 Proof. vm_compute. split; reflexivity. Qed.
+
+(* ------------------------------------------------------------------ a file name used again *)
+(* a sink destroyed and created again with the same basename within the second that names the file opens the SAME
+   file: with the mode the current source passes to fopen (regenerated fact AppendFile_opens_in_append_mode) the file
+   ends with what it held before followed by every session's bytes in session order - nothing already on disk is
+   lost, for every sequence of sessions.  A truncating mode keeps the last session only (C16_reopen_truncate_refuted). *)
+Theorem C16_reopen_continues : forall (A : Type) (ss : list (list A)) (disk : list A),
+  sessions A AppendFile_opens_in_append_mode disk ss = disk ++ concat ss.
+Proof. exact sessions_current_tree. Qed.
+Print Assumptions C16_reopen_continues.
+Theorem C16_reopen_truncate_refuted :
+  (forall (A : Type) (ss : list (list A)) (disk : list A), ss <> [] -> sessions A false disk ss = last ss []) /\
+  (exists ss : list (list Z), sessions Z false [] ss <> concat ss).
+Proof. exact (conj sessions_truncate truncate_loses). Qed.
+Print Assumptions C16_reopen_truncate_refuted.
+Example C16_reopen_nonvacuous : sessions Z AppendFile_opens_in_append_mode [7%Z] [[1%Z; 2%Z]; []; [3%Z]] = [7; 1; 2; 3]%Z.
+Proof. vm_compute. reflexivity. Qed.
